@@ -108,13 +108,13 @@ func driveZoom(t *Tracer, r Rng, n int) {
 			hD, vD := r.In(5, 9), r.In(5, 9)
 			w := r.randomWindow(hD, vD, false)
 			var ids []ID
-			for k := r.In(300, 1200); k > 0; k-- {
+			for k := r.Pick(255, 256, 257, 1000, 1023, 1024, 1025, r.In(300, 1200)); k > 0; k-- {
 				ids = append(ids, r.randomIDAt(w, hD, vD))
 			}
 			evChangeZoomExt(t, w, ids, hD-r.In(0, 1), vD-r.In(0, 1))
 			sw := r.randomWindow(hD, hD, true)
 			ids = ids[:0]
-			for k := r.In(300, 1200); k > 0; k-- {
+			for k := r.Pick(255, 256, 257, 1000, 1023, 1024, 1025, r.In(300, 1200)); k > 0; k-- {
 				ids = append(ids, r.randomIDAt(sw, hD, hD))
 			}
 			evChangeZoomSp(t, sw, ids, hD-r.In(0, 1))
